@@ -20,6 +20,12 @@ def edits(n,Bs,two):
     return out
 H.append({"name":"H_edits","tiers":Q,"scale":"b2","bounds":"B=2: generic-position old file of 9 bytes (4.5 blocks); one edit: overwrite/insert/delete of 1 or B+1 bytes at every offset; bound fresh <= introduced + 4B",
   "param_sets":edits(9,2,False)})
+H.append({"name":"H_edits","tiers":Q,"scale":"b2","bounds":"B=2: the same bound with FULLY symbolic contents (coincidences such as equal rolling hashes of consecutive windows reachable): old 7 bytes, one edit of 1 byte at every offset (holds on the unchanged tree for every content in this bound)",
+  "param_sets":[dict(p,sym=1) for p in edits(7,2,False) if p["m"]==1]})
+H.append({"name":"H_edits","tiers":Q,"scale":"b2","bounds":"B=2: generic-position old file of 17 bytes containing one run of B+1 equal bytes at position r (consecutive windows with equal rolling hashes while the differ is re-synchronising after an edit at offset o <= r): every (o, r) with r-o in 0..3, insert/delete/overwrite of 1 byte",
+  "param_sets":[{"n":17,"kind":k,"o":o,"m":1,"kind2":0,"o2":0,"m2":0,"run":r} for k in (0,1,2) for o in (0,1,2,3) for r in range(o,o+4)]})
+H.append({"name":"H_edits","tiers":Q,"scale":"b2","bounds":"B=2: generic-position old file of 17 bytes; insertion of a run of B+1 or B+2 equal bytes at every offset 0..8 (consecutive unmatched windows with equal rolling hashes: the 'hash unchanged, skip the lookup' shortcut fires while re-synchronising)",
+  "param_sets":[{"n":17,"kind":1,"o":o,"m":m,"kind2":0,"o2":0,"m2":0,"eqins":1} for o in range(0,9) for m in (3,4)]})
 H.append({"name":"H_edits","tiers":T,"scale":"b2","bounds":"B=2: old 13 bytes; every single edit; and pairs of edits (second: 1 byte at 3 offsets), bound introduced + 6B","max_seconds":1500,
   "param_sets":edits(13,2,False)+edits(9,2,True)})
 H.append({"name":"H_edits","tiers":T,"scale":"b4","bounds":"B=4: old 17 bytes; every single edit of 1 or B+1 bytes","max_seconds":1500,"param_sets":edits(17,4,False)})
